@@ -242,6 +242,20 @@ def run(ctx):
             ctx.notes["search_evaluations"] = int(f[1])
         elif f[0] == "OUTCOMES":
             ctx.notes["search_outcomes"] = f[1]
+    # hygiene (hidden state between calls): the tagged driver asks every S / G case a second time on the same boxes (other
+    # order) and runs every second case on boxes whose lookup helpers were queried up to the LAST sample before; a second
+    # answer that differs is a failing input (the case line), a first answer that differs a model mismatch
+    for l in cases.splitlines():
+        if "\thidden-state:" in l:
+            kind = "getSegmentStartsFromVideo/getSegmentIntervals" if l.startswith("S\t") else "GetFullSamplesForInterval/GetSamplesForInterval"
+            fails.append(["FAIL", "examples/segmenter." + kind, "second-call-differs", l[:6000],
+                          "asked a second time on the same sample tables the function answers differently"])
+    ctx.notes["hygiene_oracles"] = (
+        "hidden state between calls: /repo/examples/segmenter/c11_verif_test.go + c11fetch_verif_test.go ask every plan (S) and "
+        "fetch (G) case twice on the same boxes (starts, intervals, then starts and intervals again; full, meta, copy, flags, then "
+        "meta and full again) and run every second case on boxes whose lookup helpers (stts, stsc, ctts, stss, stsz) were first asked "
+        "about the first, middle and LAST sample; the model expects the fresh-box answers. Aliasing / cap classes: the samples the "
+        "tools hand to fragments are library-internal (not applicable).")
     new_fails = [f for f in fails if ctx.failing_input(
         f[1], f[2], f[3], f[4], extra={"replay_cmd": "./check C11 --replay <this file>"})]
     ctx.log("search: %d evaluations, %d failing inputs (%d not recorded as known); outcomes %s" % (
